@@ -161,3 +161,19 @@ Definition c13_should_refuse (d : doc) : bool :=
     end
   | _ => false
   end.
+
+(* ---- C10 ---- *)
+Definition item_texts (i : item) : list str :=
+  match i with
+  | IRow r => map cell_text (rw_cells r)
+  | IPara _ rs => map run_text rs
+  | _ => []
+  end.
+Definition all_texts (pd : pdoc) : list str :=
+  flat_map item_texts (pd_items pd ++ concat (pd_header pd) ++ concat (pd_footer pd)).
+
+Fixpoint first_missing (expected : list str) (have : list str) (i : nat) : option nat :=
+  match expected with
+  | [] => None
+  | e :: r => if mem_str e have then first_missing r have (S i) else Some i
+  end.
